@@ -102,6 +102,11 @@ pub trait Check {
             Tier::Thorough => 16,
         }
     }
+    /// Batch checks (surface-syntax lane) do all their work in the parent process: generate,
+    /// compile and run a crate of programs. Returns None for ordinary sharded checks.
+    fn run_batch(&self, _tier: Tier, _seed: u64) -> Option<Merged> {
+        None
+    }
     /// Post-merge hook: may add run-level violations from the merged counters.
     fn finish(&self, _merged: &mut Merged, _tier: Tier) {}
 }
@@ -238,7 +243,8 @@ pub fn run_check(check: &dyn Check, opts: &RunOpts) -> i32 {
     let outdir = Path::new(&verif_root()).join("out").join(id);
     let _ = std::fs::remove_dir_all(&outdir);
     std::fs::create_dir_all(&outdir).expect("create out dir");
-    let nshards = check.shards(opts.tier);
+    let batch = check.run_batch(opts.tier, opts.seed);
+    let nshards = if batch.is_some() { 0 } else { check.shards(opts.tier) };
     let spawn = |shard: usize, part: usize, skip: Option<&str>| {
         let log = std::fs::OpenOptions::new().create(true).append(true).open(outdir.join(format!("worker-{}.log", shard))).expect("log");
         let mut cmd = Command::new(&opts.exe);
@@ -256,7 +262,7 @@ pub fn run_check(check: &dyn Check, opts: &RunOpts) -> i32 {
         Tier::Quick => Duration::from_secs(1500),
         Tier::Thorough => Duration::from_secs(5 * 3600),
     };
-    let mut merged = Merged::default();
+    let mut merged = batch.unwrap_or_default();
     let mut harness_problems: Vec<String> = vec![];
     let mut crash_restarts = 0usize;
     for (shard, first_child) in children {
